@@ -114,6 +114,10 @@ def extract(repo=None, extra_defs=(), jobs=16):
         if not os.path.exists(os.path.join(repo, 'src', s)):
             raise AnalysisBroken('source listed in cc_sources is missing: src/' + s)
     if os.path.isdir(out) and os.path.exists(os.path.join(out, 'OK')):
+        try:
+            os.utime(out, None)
+        except OSError:
+            pass
         return out, srcs
     os.makedirs(CACHE, exist_ok=True)
     tmp = tempfile.mkdtemp(prefix='ir-', dir=CACHE)
@@ -147,13 +151,17 @@ def extract(repo=None, extra_defs=(), jobs=16):
     return out, srcs
 
 
-def _prune_cache(keep, maxn=6):
+def _prune_cache(keep, max_age_s=6 * 3600, maxn=200):
+    """drop cache entries that have not been touched for hours (never anything recent: other checks or
+    self-tests may be reading their own entries concurrently)"""
     try:
+        now = time.time()
         ds = [os.path.join(CACHE, d) for d in os.listdir(CACHE)]
         ds = [d for d in ds if os.path.isdir(d) and d != keep]
         ds.sort(key=lambda d: os.stat(d).st_mtime)
-        for d in ds[:-maxn] if len(ds) > maxn else []:
-            shutil.rmtree(d, ignore_errors=True)
+        for i, d in enumerate(ds):
+            if now - os.stat(d).st_mtime > max_age_s or len(ds) - i > maxn:
+                shutil.rmtree(d, ignore_errors=True)
     except OSError:
         pass
 
